@@ -55,6 +55,12 @@ def register(op):
         pt, brk = a
         return _stable(lambda: _unmodified(lambda p: cu.pair_table_to_dot_bracket(p, strand_break=brk), _tup(pt)))
 
+    @op("pair_table_to_dot_bracket_iter")
+    def _(a):
+        """the table handed over as a one-shot iterator of rows (what ComplexS.pair_table yields)"""
+        pt, brk = a
+        return cu.pair_table_to_dot_bracket((row for row in _tup(pt)), strand_break=brk)
+
     @op("make_strand_table_list")
     def _(a):
         seq, brk = a
